@@ -415,7 +415,14 @@ class DemoStorage(ConflictResolvingStorage):
         self._commit_lock.acquire()
 
         with self._lock:
-            self.changes.tpc_begin(transaction, *a, **k)
+            try:
+                self.changes.tpc_begin(transaction, *a, **k)
+            except BaseException:
+                # We are not in a transaction, so tpc_abort() would ignore
+                # the caller's abort: undo what was done here.
+                self.changes.tpc_abort(transaction)
+                self._commit_lock.release()
+                raise
             self._transaction = transaction
             self._stored_oids = set()
             del self._resolved[:]
